@@ -213,7 +213,7 @@ namespace avel {
         typename std::enable_if<N < mask32x16u::width, int>::type dummy_variable = 0;
 
         auto mask = b << N;
-        return mask32x16u{__mmask32((decay(m) & ~mask) | mask)};
+        return mask32x16u{__mmask32((decay(m) & ~(1u << N)) | mask)};
     }
 
 
